@@ -46,10 +46,18 @@ var keywords = map[string]struct{}{
 	"yield":    {},
 }
 
+// maxDepth is the deepest nesting of statements and expressions that the parser accepts.
+// The parser is recursive-descent, so this bounds how much stack it uses; running out of stack
+// is fatal to the whole process and cannot be recovered from. Each level costs at most a couple
+// of kilobytes of stack, and no realistic BUILD file gets anywhere near this many.
+const maxDepth = 10000
+
 type parser struct {
 	l      *lex
 	endPos Position
 	inFor  bool
+	// Number of levels of recursion we are currently within; see enter().
+	depth int
 }
 
 // parseFileInput is the only external entry point to this class, it parses a file into a FileInput structure.
@@ -143,10 +151,25 @@ func (p *parser) fail(pos Token, message string, args ...interface{}) {
 	fail(p.l.filename, pos.Pos, message, args...)
 }
 
+// enter must be called somewhere in every cycle of parse functions that can end up calling one
+// another, and be matched by a call to leave. It fails once we are nested too deeply.
+// A failure abandons the parse altogether so leave need not be deferred.
+func (p *parser) enter(tok Token) {
+	p.depth++
+	if p.depth > maxDepth {
+		p.fail(tok, "Statement or expression is nested too deeply (more than %d levels)", maxDepth)
+	}
+}
+
+func (p *parser) leave() {
+	p.depth--
+}
+
 func (p *parser) parseStatement() *Statement {
 	s := &Statement{}
 	tok := p.l.Peek()
 	s.Pos = tok.Pos
+	p.enter(tok)
 
 	switch tok.Value {
 	case "pass":
@@ -201,6 +224,7 @@ func (p *parser) parseStatement() *Statement {
 		p.next(EOL)
 	}
 	s.EndPos = p.endPos
+	p.leave()
 	return s
 }
 
@@ -374,10 +398,12 @@ func (p *parser) parseExpressionInPlace(e *Expression) {
 }
 
 func (p *parser) parseInlineIf(e *Expression) {
-	if p.optionalv("if") {
+	if tok := p.l.Peek(); p.optionalv("if") {
+		p.enter(tok)
 		e.If = &InlineIf{Condition: p.parseExpression()}
 		p.nextv("else")
 		e.If.Else = p.parseExpression()
+		p.leave()
 	}
 }
 
@@ -388,6 +414,7 @@ func (p *parser) parseUnconditionalExpression() *Expression {
 }
 
 func (p *parser) parseUnconditionalExpressionInPlace(e *Expression) {
+	p.enter(p.l.Peek())
 	if tok := p.l.Peek(); tok.Type == '-' {
 		p.l.Next()
 		e.Op = append(e.Op, OpExpression{Op: Negate})
@@ -424,6 +451,7 @@ func (p *parser) parseUnconditionalExpressionInPlace(e *Expression) {
 			o.Expr.Op = nil
 		}
 	}
+	p.leave()
 }
 
 func concatStrings(lhs *ValueExpression, rhs *ValueExpression) *ValueExpression {
@@ -476,8 +504,11 @@ func (p *parser) parseValueExpression() *ValueExpression {
 			p.endPos = p.l.Next().EndPos()
 		}
 
-		if p.l.Peek().Type == String {
-			return concatStrings(ve, p.parseValueExpression())
+		if tok := p.l.Peek(); tok.Type == String {
+			p.enter(tok)
+			rhs := p.parseValueExpression()
+			p.leave()
+			return concatStrings(ve, rhs)
 		}
 	} else if tok.Type == Int {
 		p.assert(len(tok.Value) < 19, tok, "int literal is too large: %s", tok)
@@ -584,7 +615,9 @@ func (p *parser) parseIdentExpr() *IdentExpr {
 		tok := p.l.Next()
 		action := IdentExprAction{}
 		if tok.Type == '.' {
+			p.enter(tok)
 			action.Property = p.parseIdentExpr()
+			p.leave()
 			ie.EndPos = action.Property.EndPos
 		} else {
 			action.Call = p.parseCall()
